@@ -165,13 +165,28 @@ fn digest_ct(ct: &CKKSCiphertext<Vec<u8>>, out: &mut Vec<u64>) {
     out.extend_from_slice(&[ct.log_delta() as u64, ct.log_budget() as u64, ct.size() as u64, fnv(&ct.data().data)]);
 }
 
-fn window<B: Cb, T>(bytes: usize, fill: usize, f: impl FnOnce(&mut Scratch<B>) -> T) -> (Result<T, String>, bool) {
-    let mut buf = poulpy_hal::alloc_aligned::<u8>(PAD + bytes + PAD + 64);
-    buf.fill(CANARY);
-    garbage(&mut buf[PAD..PAD + bytes], fill);
-    let r = guarded(|| f(B::scratch_from_bytes(&mut buf[PAD..PAD + bytes])));
-    let ok = buf[..PAD].iter().all(|x| *x == CANARY) && buf[PAD + bytes..].iter().all(|x| *x == CANARY);
-    (r, ok)
+/// where the call gets its scratch from: an exact window pre-filled with pattern `fill` (C12), or the harness's
+/// ample arena (other parts that reuse the action executor)
+pub enum Win<'a> {
+    Exact(usize),
+    Ample(&'a mut Scr),
+}
+
+fn window<B: Cb, T>(win: &mut Win, bytes: usize, f: impl FnOnce(&mut Scratch<B>) -> T) -> (Result<T, String>, bool) {
+    match win {
+        Win::Exact(fill) => {
+            let mut buf = poulpy_hal::alloc_aligned::<u8>(PAD + bytes + PAD + 64);
+            buf.fill(CANARY);
+            garbage(&mut buf[PAD..PAD + bytes], *fill);
+            let r = guarded(|| f(B::scratch_from_bytes(&mut buf[PAD..PAD + bytes])));
+            let ok = buf[..PAD].iter().all(|x| *x == CANARY) && buf[PAD + bytes..].iter().all(|x| *x == CANARY);
+            (r, ok)
+        }
+        Win::Ample(scr) => {
+            scr.fill();
+            (guarded(|| f(scr.get::<B>())), true)
+        }
+    }
 }
 
 fn status_of(r: &Result<anyhow::Result<()>, String>) -> (String, bool) {
@@ -192,10 +207,14 @@ fn status_of(r: &Result<anyhow::Result<()>, String>) -> (String, bool) {
 pub struct Shape {
     pub bytes: Option<usize>,
     pub extra: Value,
+    /// (register, object) written by a successful call
+    pub produced: Vec<(usize, CKKSCiphertext<Vec<u8>>)>,
+    /// bytes of the plaintext written by decrypt / extract
+    pub pt: Option<Vec<u8>>,
 }
 
 /// Executes `xa` once on an exact window filled with pattern `fill`.
-pub fn exec<B: Cb, F: Real>(cx: &Ctx<B, F>, st: &State<F>, xa: &XAct, fill: usize, seed: u64, depth: usize) -> (Obs, Shape)
+pub fn exec<B: Cb, F: Real>(cx: &Ctx<B, F>, st: &State<F>, xa: &XAct, win: &mut Win, seed: u64, depth: usize) -> (Obs, Shape)
 where
     Module<B>: HalAll<B> + CoreAll<B> + CkksAll<B>,
     Scratch<B>: ScratchTakeCore<B> + ScratchAvailable,
@@ -222,22 +241,24 @@ where
                     Shape {
                         bytes: None,
                         extra: json!({}),
+                        produced: vec![],
+                        pt: None,
                     },
                 );
             };
-            let (r, can) = window::<B, _>(bytes, fill, |s| apply(cx, st, act, &pred, depth, seed, s));
-            let (status, panicked, digest) = match r {
-                Err(p) => (format!("panic:{p}"), true, vec![]),
+            let (r, can) = window::<B, _>(win, bytes, |s| apply(cx, st, act, &pred, depth, seed, s));
+            let (status, panicked, digest, produced) = match r {
+                Err(p) => (format!("panic:{p}"), true, vec![], vec![]),
                 Ok(ap) => match &ap.res {
                     CallRes::Ok => {
                         let mut d = vec![];
                         for (_, ct) in &ap.changed {
                             digest_ct(ct, &mut d);
                         }
-                        ("ok".to_string(), false, d)
+                        ("ok".to_string(), false, d, ap.changed)
                     }
-                    CallRes::Err { kind, text } => (format!("err:{kind:?}:{text}"), false, vec![]),
-                    CallRes::Panic(p) => (format!("panic:{p}"), true, vec![]),
+                    CallRes::Err { kind, text } => (format!("err:{kind:?}:{text}"), false, vec![], vec![]),
+                    CallRes::Panic(p) => (format!("panic:{p}"), true, vec![], vec![]),
                 },
             };
             (
@@ -250,6 +271,8 @@ where
                 Shape {
                     bytes: Some(bytes),
                     extra: json!({"action": act}),
+                    produced,
+                    pt: None,
                 },
             )
         }
@@ -257,16 +280,18 @@ where
             let bytes = m.ckks_add_many_tmp_bytes();
             let refs: Vec<&CKKSCiphertext<Vec<u8>>> = regs.iter().map(|&r| reg(r)).collect();
             let mut d = fresh(*dst, *size);
-            let (r, can) = window::<B, _>(bytes, fill, |s| m.ckks_add_many(&mut d, &refs, s));
-            finish(r, can, &[&d], bytes, json!({"n_terms": regs.len(), "inputs_uniform": lb_set(regs), "dst_size": d.size()}))
+            let (r, can) = window::<B, _>(win, bytes, |s| m.ckks_add_many(&mut d, &refs, s));
+            let ex = json!({"n_terms": regs.len(), "inputs_uniform": lb_set(regs), "dst_size": d.size()});
+            finish(r, can, vec![(*dst as usize, d)], bytes, ex)
         }
         XAct::MulMany { dst, size, regs } => {
             let mut d = fresh(*dst, *size);
             let big = regs.iter().map(|&r| reg(r).size()).fold(d.size(), usize::max);
             let bytes = m.ckks_mul_many_tmp_bytes(regs.len(), &layout_of(&cx.p, big), &cx.tsk_layout);
             let refs: Vec<&CKKSCiphertext<Vec<u8>>> = regs.iter().map(|&r| reg(r)).collect();
-            let (r, can) = window::<B, _>(bytes, fill, |s| m.ckks_mul_many(&mut d, &refs, &cx.tsk, s));
-            finish(r, can, &[&d], bytes, json!({"n_terms": regs.len(), "inputs_uniform": lb_set(regs), "dst_size": d.size()}))
+            let (r, can) = window::<B, _>(win, bytes, |s| m.ckks_mul_many(&mut d, &refs, &cx.tsk, s));
+            let ex = json!({"n_terms": regs.len(), "inputs_uniform": lb_set(regs), "dst_size": d.size()});
+            finish(r, can, vec![(*dst as usize, d)], bytes, ex)
         }
         XAct::DotCt { dst, size, a, b } => {
             let mut d = fresh(*dst, *size);
@@ -274,14 +299,15 @@ where
             let bytes = m.ckks_dot_product_ct_tmp_bytes(a.len(), &layout_of(&cx.p, big), &cx.tsk_layout);
             let ra: Vec<&CKKSCiphertext<Vec<u8>>> = a.iter().map(|&r| reg(r)).collect();
             let rb: Vec<&CKKSCiphertext<Vec<u8>>> = b.iter().map(|&r| reg(r)).collect();
-            let (r, can) = window::<B, _>(bytes, fill, |s| m.ckks_dot_product_ct(&mut d, &ra, &rb, &cx.tsk, s));
+            let (r, can) = window::<B, _>(win, bytes, |s| m.ckks_dot_product_ct(&mut d, &ra, &rb, &cx.tsk, s));
             let (au, bu) = (lb_set(a), lb_set(b));
             let sides = match (au, bu) {
                 (true, true) => "equal",
                 (false, false) => "unequal_both_sides",
                 _ => "unequal_one_side",
             };
-            finish(r, can, &[&d], bytes, json!({"n_terms": a.len(), "a_side_uniform": au, "b_side_uniform": bu, "sides": sides, "dst_size": d.size()}))
+            let ex = json!({"n_terms": a.len(), "a_side_uniform": au, "b_side_uniform": bu, "sides": sides, "dst_size": d.size()});
+            finish(r, can, vec![(*dst as usize, d)], bytes, ex)
         }
         XAct::DotPt { dst, size, a, form, prec, idx } => {
             let mut d = fresh(*dst, *size);
@@ -295,28 +321,28 @@ where
                 PtForm::VecZnx => {
                     let bytes = m.ckks_dot_product_pt_vec_znx_tmp_bytes(&rl, *big, &pm);
                     let w: Vec<&CKKSPlaintextVecZnx<Vec<u8>>> = idx.iter().map(|&i| &cx.vec_znx[*prec as usize][i as usize]).collect();
-                    let (r, can) = window::<B, _>(bytes, fill, |s| m.ckks_dot_product_pt_vec_znx(&mut d, &ra, &w, s));
-                    finish(r, can, &[&d], bytes, extra)
+                    let (r, can) = window::<B, _>(win, bytes, |s| m.ckks_dot_product_pt_vec_znx(&mut d, &ra, &w, s));
+                    finish(r, can, vec![(*dst as usize, d)], bytes, extra)
                 }
                 PtForm::VecRnx => {
                     let bytes = m.ckks_dot_product_pt_vec_rnx_tmp_bytes(&rl, *big, &pm);
                     let w: Vec<&CKKSPlaintextVecRnx<F>> = idx.iter().map(|&i| &cx.vec_rnx[i as usize]).collect();
-                    let (r, can) = window::<B, _>(bytes, fill, |s| m.ckks_dot_product_pt_vec_rnx(&mut d, &ra, &w, pm, s));
-                    finish(r, can, &[&d], bytes, extra)
+                    let (r, can) = window::<B, _>(win, bytes, |s| m.ckks_dot_product_pt_vec_rnx(&mut d, &ra, &w, pm, s));
+                    finish(r, can, vec![(*dst as usize, d)], bytes, extra)
                 }
                 PtForm::CstZnx => {
                     let bytes = m.ckks_dot_product_pt_const_tmp_bytes(&rl, *big, &pm);
                     let cs: Vec<CKKSPlaintextCstZnx> = idx.iter().map(|&i| cx.cst_znx_natural(i as usize, *prec as usize)).collect();
                     let w: Vec<&CKKSPlaintextCstZnx> = cs.iter().collect();
-                    let (r, can) = window::<B, _>(bytes, fill, |s| m.ckks_dot_product_pt_const_znx(&mut d, &ra, &w, s));
-                    finish(r, can, &[&d], bytes, extra)
+                    let (r, can) = window::<B, _>(win, bytes, |s| m.ckks_dot_product_pt_const_znx(&mut d, &ra, &w, s));
+                    finish(r, can, vec![(*dst as usize, d)], bytes, extra)
                 }
                 PtForm::CstRnx => {
                     let bytes = m.ckks_dot_product_pt_const_tmp_bytes(&rl, *big, &pm);
                     let cs: Vec<CKKSPlaintextCstRnx<F>> = idx.iter().map(|&i| cx.cst_rnx(i as usize)).collect();
                     let w: Vec<&CKKSPlaintextCstRnx<F>> = cs.iter().collect();
-                    let (r, can) = window::<B, _>(bytes, fill, |s| m.ckks_dot_product_pt_const_rnx(&mut d, &ra, &w, pm, s));
-                    finish(r, can, &[&d], bytes, extra)
+                    let (r, can) = window::<B, _>(win, bytes, |s| m.ckks_dot_product_pt_const_rnx(&mut d, &ra, &w, pm, s));
+                    finish(r, can, vec![(*dst as usize, d)], bytes, extra)
                 }
             }
         }
@@ -329,9 +355,10 @@ where
             };
             let mut pt = CKKSPlaintextVecZnx::alloc(ct.n(), ct.base2k(), meta);
             garbage(&mut pt.data_mut().data, 0);
-            let (r, can) = window::<B, _>(bytes, fill, |s| m.ckks_decrypt(&mut pt, ct, &cx.sk, s));
+            let (r, can) = window::<B, _>(win, bytes, |s| m.ckks_decrypt(&mut pt, ct, &cx.sk, s));
             let (status, panicked) = status_of(&r);
-            let digest = if status == "ok" { vec![fnv(&pt.data().data)] } else { vec![] };
+            let status_ok = status == "ok";
+            let digest = if status_ok { vec![fnv(&pt.data().data)] } else { vec![] };
             (
                 Obs {
                     status,
@@ -342,6 +369,8 @@ where
                 Shape {
                     bytes: Some(bytes),
                     extra: json!({"pt_size": pt.size()}),
+                    produced: vec![],
+                    pt: if status_ok { Some(pt.data().data.clone()) } else { None },
                 },
             )
         }
@@ -362,6 +391,8 @@ where
                     Shape {
                         bytes: None,
                         extra: json!({"stage": "glwe_decrypt (ample scratch)"}),
+                        produced: vec![],
+                        pt: None,
                     },
                 );
             }
@@ -372,9 +403,10 @@ where
             };
             let mut pt = CKKSPlaintextVecZnx::alloc(ct.n(), ct.base2k(), meta);
             garbage(&mut pt.data_mut().data, 0);
-            let (r, can) = window::<B, _>(bytes, fill, |s| m.ckks_extract_pt_znx(&mut pt, &full, ct, s));
+            let (r, can) = window::<B, _>(win, bytes, |s| m.ckks_extract_pt_znx(&mut pt, &full, ct, s));
             let (status, panicked) = status_of(&r);
-            let digest = if status == "ok" { vec![fnv(&pt.data().data)] } else { vec![] };
+            let status_ok = status == "ok";
+            let digest = if status_ok { vec![fnv(&pt.data().data)] } else { vec![] };
             (
                 Obs {
                     status,
@@ -385,19 +417,29 @@ where
                 Shape {
                     bytes: Some(bytes),
                     extra: json!({"pt_size": pt.size()}),
+                    produced: vec![],
+                    pt: if status_ok { Some(pt.data().data.clone()) } else { None },
                 },
             )
         }
     }
 }
 
-fn finish(r: Result<anyhow::Result<()>, String>, can: bool, outs: &[&CKKSCiphertext<Vec<u8>>], bytes: usize, extra: Value) -> (Obs, Shape) {
+fn finish(
+    r: Result<anyhow::Result<()>, String>,
+    can: bool,
+    outs: Vec<(usize, CKKSCiphertext<Vec<u8>>)>,
+    bytes: usize,
+    extra: Value,
+) -> (Obs, Shape) {
     let (status, panicked) = status_of(&r);
     let mut digest = vec![];
+    let mut produced = vec![];
     if status == "ok" {
-        for ct in outs {
+        for (_, ct) in &outs {
             digest_ct(ct, &mut digest);
         }
+        produced = outs;
     }
     (
         Obs {
@@ -409,6 +451,8 @@ fn finish(r: Result<anyhow::Result<()>, String>, can: bool, outs: &[&CKKSCiphert
         Shape {
             bytes: Some(bytes),
             extra,
+            produced,
+            pt: None,
         },
     )
 }
@@ -628,7 +672,7 @@ fn check_one<B: Cb, F: Real>(
     let opname = xa.name();
     let mut obs: Vec<(Obs, Shape)> = vec![];
     for (fill, _) in FILLS {
-        let o = exec(cx, st, xa, fill, seed, depth);
+        let o = exec(cx, st, xa, &mut Win::Exact(fill), seed, depth);
         if o.1.bytes.is_none() {
             rec.add("calls_without_scratch", 1);
             return;
